@@ -629,7 +629,7 @@ impl Sim {
                 if self.slots[a].tainted {
                     return Ok(());
                 }
-                let enc = *enc % 3;
+                let enc = *enc % medium::NENC;
                 let w = self.slots[a].world.as_ref().unwrap();
                 let stream = match sut(|| medium::serialize(w, enc)) {
                     Ok(Ok(s)) => s,
@@ -680,7 +680,8 @@ impl Sim {
                 self.probes.hit(match enc {
                     0 => "roundtrip_tokens_readable",
                     1 => "roundtrip_tokens_compact",
-                    _ => "roundtrip_json",
+                    2 => "roundtrip_json",
+                    _ => "roundtrip_tokens_compact_struct_as_seq",
                 });
             }
             Op::Snapshot { slot, enc } => {
@@ -688,7 +689,7 @@ impl Sim {
                 if self.slots[si].tainted {
                     return Ok(());
                 }
-                let enc = *enc % 3;
+                let enc = *enc % medium::NENC;
                 let w = self.slots[si].world.as_ref().unwrap();
                 let stream = match sut(|| medium::serialize(w, enc)) {
                     Ok(Ok(s)) => s,
@@ -846,7 +847,7 @@ impl Sim {
                 }
             }
             Op::Corrupt { src, dst, enc, faults } => {
-                return self.corrupt(self.s(*src), self.s(*dst), *enc % 3, faults);
+                return self.corrupt(self.s(*src), self.s(*dst), *enc % medium::NENC, faults);
             }
             Op::FaultAt { kind, k, as_error, inner } => {
                 return self.fault_at(kind, *k, *as_error, inner);
